@@ -470,6 +470,21 @@ def check(ctx):
         if "h18." in o:
             feat["tx_complete"] += 1
     fs["features"] = feat
+    # ---- structural tie: the parser states of the library (one function per state) are exactly the constructors of the model's state types
+    import subprocess, re as _re
+    syms = set()
+    for o in vf.build_objs(ctx, "plain"):
+        out = subprocess.run(["nm", o], stdout=subprocess.PIPE, universal_newlines=True).stdout
+        syms.update(m.group(1) for m in _re.finditer(r" [Tt] htp_connp_((?:REQ|RES)_[A-Z0-9_]+)$", out, _re.M))
+    mt = open(os.path.join(vf.COQ, "Model", "MConnTypes.v")).read()
+    cons = set()
+    for ty in ("req_state", "res_state"):
+        m = _re.search(r"Inductive %s :=([^.]*)\." % ty, mt)
+        cons.update(x.strip() for x in (m.group(1).split("|") if m else []) if x.strip())
+    ctx.cov["parser_states"] = {"library": len(syms), "model": len(cons)}
+    if syms != cons:
+        vf.violation(ctx, "states", {"kind": "parser-state-inventory-differs", "only_in_library": sorted(syms - cons), "only_in_model": sorted(cons - syms),
+                                     "note": "every htp_connp_REQ_* / htp_connp_RES_* state function must have its constructor in coq/Model/MConnTypes.v (and its function in MReq.v / MRes.v)"}, no_input=True)
     # ---- (3) leaf components with their own models (base64, Authorization, Cookie): library vs model vs property-text reference
     import c01_leaves
     c01_leaves.check_leaves(ctx)
